@@ -40,7 +40,7 @@ COMPLEX_VALUES = {'a': 1.3 + 0.4j, 'b': 0.7 - 1.1j, 'c': 0.6 + 0.9j, 'd': -1.9 +
 def gates(tier):
     return {'flat_sequences': 5000, 'flat_discriminating': 3000, 'random_derivations': 2000,
             'renderings_checked': 10000, 'invalid_strings': 2000, 'array_derivations': 300,
-            'complex_binding_cases': 1000, 'metric_suffix_cases': 100, 'literal_checks': 2500, 'hand_listed_checks': 300, 'values_after_matrix_grader_calls': 250, 'tiny_literals': 300, 'grader_layer_calls': 300}
+            'complex_binding_cases': 1000, 'metric_suffix_cases': 100, 'literal_checks': 2500, 'hand_listed_checks': 300, 'values_after_matrix_grader_calls': 250, 'tiny_literals': 300, 'grader_layer_calls': 300, 'overridden_constant_checks': 300, 'inplace_function_checks': 200}
 
 
 def lib_scope(bindings, metric):
@@ -542,8 +542,79 @@ def run_literals(ctx):
             ctx.violation('C03:literal:value' + (':suffix' if suf else ''), 'literal %r evaluates to %r, its value is %r' % (text, out.value, want), wit)
 
 
+def run_overridden_constants(ctx):
+    """Names resolve to the SUPPLIED constants: an author constant that replaces a default one (e, pi, i, j with
+    suppress_warnings) has the author's value, judged against literal numbers."""
+    from mitxgraders import NumericalGrader, FormulaGrader
+    rng = ctx.rng
+    defaults = {'e': math.e, 'pi': math.pi, 'i': 1j, 'j': 1j}
+    templates = [('{c}*2+1', lambda c: c * 2 + 1), ('{c}^2', lambda c: c ** 2), ('1/{c}', lambda c: 1 / c), ('3-{c}', lambda c: 3 - c),
+                 ('2{c}'.replace('2{c}', '2*{c}*{c}'), lambda c: 2 * c * c), ('({c}+1)/2', lambda c: (c + 1) / 2)]
+    for rep in range(ctx.pick(30, 300)):
+        name = rng.choice(sorted(defaults))
+        val = rng.choice([5.0, -2.5, 0.25, 3 + 1j, 42])
+        tpl, fn = rng.choice(templates)
+        cls = rng.choice([NumericalGrader, FormulaGrader])
+        extra = {'variables': ['x']} if cls is FormulaGrader and rng.random() < 0.5 else {}
+        sub = tpl.format(c=name)
+        for use, want in ((val, True), (defaults[name], False)):
+            target = fn(complex(use) if isinstance(use, complex) else float(use))
+            if want is False and abs(target - fn(complex(val))) <= 0.01 * abs(target):
+                continue
+            literal = fmt_number(target).replace('*i', '*j') if name == 'i' else fmt_number(target)     # (the literal must not use the replaced name)
+            g = cls(answers=literal, user_constants={name: val}, suppress_warnings=True, tolerance='0.1%', **extra)
+            out = lib.call(ctx, g, None, sub)
+            ctx.ev()
+            ctx.count('overridden_constant_checks')
+            wit = {'grader': cls.__name__, 'user_constants': {name: repr(val)}, 'answer_literal': literal, 'submission': sub}
+            ctx.nontrivial(['override', name, repr(val), tpl])
+            if not out.returned:
+                ctx.violation('C03:overridden_constant:raises', repr(out.exc), wit)
+            elif (out.value['ok'] is True) != want:
+                ctx.violation('C03:overridden_constant:' + ('author_value_not_used' if want else 'default_value_used'),
+                              '%r with %s=%r graded %r against the literal %s' % (sub, name, val, out.value['ok'], literal), wit)
+
+
+def run_inplace_functions(ctx):
+    """A supplied function is applied to the VALUE of a name: one that happens to work in place on the array it receives changes
+    neither the other occurrences of the name in the same string nor the scope the caller supplied."""
+    from mitxgraders.helpers.calc import evaluator, DEFAULT_FUNCTIONS, DEFAULT_VARIABLES, MathArray
+
+    def relu(v):
+        v[v < 0] = 0
+        return v
+
+    def clip1(v):
+        np.clip(v, -1, 1, out=v)
+        return v
+
+    def scale(v):
+        v *= 2
+        return v
+    funcs = dict(DEFAULT_FUNCTIONS, relu=relu, clip1=clip1, scale=scale)
+    table = [('v - relu(v)', [0.0, -2.0, 0.0]), ('relu(v) + v', [2.0, -2.0, 6.0]), ('v + relu(v)', [2.0, -2.0, 6.0]), ('clip1(v) - v', [0.0, 1.0, -2.0]),
+             ('scale(v) - v', [1.0, -2.0, 3.0]), ('scale(v) - 2*v', [0.0, 0.0, 0.0]), ('relu(v)*v', 10.0), ('v*v + 0*relu(v)*v', 14.0),
+             ('scale(scale(v)) - v', [3.0, -6.0, 9.0]), ('relu(m)*v - m*v', [-4.0, 0.0])]
+    for rep in range(ctx.pick(2, 6)):
+        for s_, want in table:
+            variables = dict(DEFAULT_VARIABLES, v=MathArray([1.0, -2.0, 3.0]), m=MathArray([[1.0, -2.0, 0.0], [0.0, 1.0, 2.0]]))
+            out = lib.call(ctx, lambda: evaluator(s_, variables, funcs, {}, max_array_dim=2)[0])
+            ctx.ev()
+            ctx.count('inplace_function_checks')
+            ctx.nontrivial('inplace:' + s_)
+            wit = {'string': s_, 'v': [1.0, -2.0, 3.0], 'm': [[1.0, -2.0, 0.0], [0.0, 1.0, 2.0]], 'expected': want, 'outcome': out.brief()}
+            if not out.returned:
+                ctx.violation('C03:inplace_function:raises', repr(out.exc), wit)
+            elif not _allclose(out.value, want):
+                ctx.violation('C03:inplace_function:value', '%r = %r, expected %r' % (s_, out.value, want), wit)
+            if not (_allclose(variables['v'], [1.0, -2.0, 3.0]) and _allclose(variables['m'], [[1.0, -2.0, 0.0], [0.0, 1.0, 2.0]])):
+                ctx.violation('C03:inplace_function:scope_modified', 'after %r the supplied v is %r' % (s_, variables['v']), wit)
+
+
 def run(ctx):
     run_hand_listed(ctx)
+    run_inplace_functions(ctx)
+    run_overridden_constants(ctx)
     run_literals(ctx)
     run_after_matrix_graders(ctx)
     run_after_metric_graders(ctx)
